@@ -387,6 +387,10 @@ where
 			.join(TX_SAVE_DIR)
 			.join(filename);
 		let path_buf = Path::new(&path).to_path_buf();
+		#[cfg(grin_wallet_verif)]
+		if grin_wallet_util::verif::point("store_tx") {
+			return Err(Error::IO("verif: injected store_tx failure".to_owned()));
+		}
 		let mut stored_tx = File::create(path_buf)?;
 		let tx_hex = ser::ser_vec(tx, ser::ProtocolVersion(1)).unwrap().to_hex();
 		stored_tx.write_all(&tx_hex.as_bytes())?;
@@ -455,6 +459,8 @@ where
 				None => 0,
 			}
 		};
+		#[cfg(grin_wallet_verif)]
+		let _ = grin_wallet_util::verif::point("next_child");
 		let mut return_path = self.parent_key_id.to_path();
 		return_path.depth += 1;
 		return_path.path[return_path.depth as usize - 1] = ChildNumber::from(deriv_idx);
@@ -760,6 +766,10 @@ where
 	}
 
 	fn commit(&self) -> Result<(), Error> {
+		#[cfg(grin_wallet_verif)]
+		if grin_wallet_util::verif::point("batch_commit") {
+			return Err(Error::Backend("verif: injected commit failure".to_owned()));
+		}
 		let db = self.db.replace(None);
 		db.unwrap().commit()?;
 		Ok(())
